@@ -99,7 +99,7 @@ func TestC20(t *testing.T) {
 	col := ev.New("C20", "rapid: ELF layout models (class 32/64, little/big endian, type none/rel/exec/dyn/core, 0-5 "+
 		"program headers (PT_LOAD and others, filesz <,=,> memsz, bss up to 4 KiB, overlapping with probability ~1/6, "+
 		"adjacent), 0-6 sections (PROGBITS/NOBITS/NOTE, with/without EXECINSTR, addr 0/non-zero, size 0/non-zero, "+
-		"overlapping/adjacent), optional missing section table) written by an independent ELF writer; expected memory "+
+		"overlapping/adjacent; an eighth of the addresses unaligned), optional missing section table (then half of the files have a loadable segment whose file image is cut short by the end of the file)) written by an independent ELF writer; expected memory "+
 		"image and code blocks computed from the model and the file bytes, never by re-parsing. An error is never a "+
 		"violation except that rel/core/none types and overlapping segments/sections MUST be rejected; every success must "+
 		"equal the model (sorted non-overlapping blocks, bytes, zero padding, Address lookups at starts/interiors/ends/"+
